@@ -52,6 +52,7 @@ def run(model: Model, rep: Report) -> None:
 
     tounicode_ranges_rule(model, rep, "C06-R7")
     encoding_table_rule(model, rep, "C06-R8")
+    _type1_header(model, rep)
     init_order_rule(model, rep, "C06-R9", ["pdfminer.pdffont.PDFType1Font", "pdfminer.pdffont.PDFTrueTypeFont", "pdfminer.pdffont.PDFType3Font", "pdfminer.pdffont.PDFCIDFont", "pdfminer.pdffont.PDFSimpleFont"])
     # ---------------------------------------------------------------- R2
     r2 = rep.rule("C06-R2", "TABLE", "WinAnsi/MacRoman columns agree with Python's cp1252/mac_roman except the documented codes; columns are functions of the code; names resolve", 6)
@@ -246,3 +247,15 @@ def init_order_rule(model: Model, rep: Report, rid: str, classes) -> None:
                 if fld in bw and order.get(id(st), 10**9) < order[id(first_call)]:
                     early.append((fld, st))
         r.check(not early, site(f, early[0][1]) if early else site(f), f.qualname, f"{cq.split('.')[-1]}: fields also set by the base initialiser are set after `{unparse(first_call.func)}`", why=f"`self.{early[0][0]}` is assigned before the base initialiser, which assigns it again: the subclass value is lost" if early else "")
+
+
+def _type1_header(model: Model, rep: Report) -> None:
+    r10 = rep.rule("C06-R10", "BIND", "Type 1 built-in encoding: every `dup <code> /<name> put` of the font program maps the code to the glyph name's text; unknown names are skipped", 3)
+    P = "pdfminer.pdffont.Type1FontHeaderParser"
+    dk, ge = model.func(P + ".do_keyword"), model.func(P + ".get_encoding")
+    s1 = "".join(unparse(dk.node).split()).replace("(_,key),(_,value)=", "((_,key),(_,value))=")
+    r10.check("iftokenisself.KEYWORD_PUT:((_,key),(_,value))=self.pop(2)ifisinstance(key,int)andisinstance(value,PSLiteral):self.add_results((key,literal_name(value)))" in s1, site(dk), dk.qualname, "`put` takes (code, /name) off the stack and reports the pair when the code is an integer and the value a name", why="changed")
+    kw = model.cls(P).attrs.get("KEYWORD_PUT")
+    r10.check(kw is not None and "".join(unparse(kw).split()) == "KWD(b'put')", site(dk), P, "the keyword is `put`", why="keyword changed")
+    s2 = "".join(unparse(ge.node).split()).replace("cid,name=self.nextobject()", "(cid,name)=self.nextobject()")
+    r10.check("(cid,name)=self.nextobject()" in s2 and "exceptPSEOF:break" in s2 and "self._cid2unicode[cid]=name2unicode(cast(str,name))" in s2 and "exceptKeyErrorase:" in s2 and s2.endswith("returnself._cid2unicode"), site(ge), ge.qualname, "each reported pair is stored as code -> name2unicode(name); names without a Unicode value are left out; the table built is returned", why="changed")
